@@ -40,6 +40,23 @@ Definition AA : arith Q := mkArith Q fadd fsub fmul fdiv fofZ Qltb Qle_bool Qeq_
 Notation st := (@st Q).
 Notation bin := (Q * Z)%type.
 
+(* An additive measure of a bin list that the three ways of changing bins respect: adding to
+   the count of an equal centre, merging two adjacent bins into their (clamped) centroid,
+   and merging a new value into a bin in place.  Instances: the total count (any arithmetic)
+   and the first moment sum(v * f) (exact arithmetic; see Proofs/C13_mean.v). *)
+Variable mu : list bin -> Q.
+Hypothesis mu_app : forall l1 l2, mu (l1 ++ l2) == mu l1 + mu l2.
+Hypothesis mu_hit : forall vi fi v c, vi == v -> mu [(vi, (fi + c)%Z)] == mu [(vi, fi)] + mu [(v, c)].
+Hypothesis mu_merge : forall v1 f1 v2 f2, v1 < v2 -> (1 <= f1)%Z -> (1 <= f2)%Z ->
+  mu [(pmin AA (pmax AA (centroid AA v1 f1 v2 f2) v1) v2, (f1 + f2)%Z)] == mu [(v1, f1)] + mu [(v2, f2)].
+Hypothesis mu_inplace : forall cv cf v c, ~ cv == v -> (1 <= cf)%Z -> (1 <= c)%Z ->
+  mu [(pmin AA (pmax AA (centroid AA cv cf v c) (pmin AA cv v)) (pmax AA cv v), (cf + c)%Z)] == mu [(cv, cf)] + mu [(v, c)].
+
+Lemma mu_mid l1 x l2 : mu (l1 ++ x :: l2) == mu l1 + mu [x] + mu l2.
+Proof. rewrite mu_app. change (x :: l2) with ([x] ++ l2). rewrite mu_app. ring. Qed.
+Lemma mu_mid2 l1 x y l2 : mu (l1 ++ x :: y :: l2) == mu l1 + mu [x] + mu [y] + mu l2.
+Proof. rewrite mu_mid. change (y :: l2) with ([y] ++ l2). rewrite mu_app. ring. Qed.
+
 (* ---------- Python min / max and the clamp ---------- *)
 Lemma pmin_cases a b : (b < a /\ pmin AA a b = b) \/ (a <= b /\ pmin AA a b = a).
 Proof. unfold pmin; cbn. destruct (Qltb_spec b a); [left|right]; split; auto; lra. Qed.
@@ -282,7 +299,8 @@ Lemma trim_step_ok (s : st) :
   exists s', trim_step AA s = Some s' /\
     sorted (bins s') /\ pos_counts (bins s') /\ cache_ok s' /\
     length (bins s') = (length (bins s) - 1)%nat /\ mass (bins s') = mass (bins s) /\
-    same_frame s s' /\ (forall mn mx, within mn mx (bins s) -> within mn mx (bins s')).
+    same_frame s s' /\ (forall mn mx, within mn mx (bins s) -> within mn mx (bins s')) /\
+    mu (bins s') == mu (bins s).
 Proof.
   intros Hs Hp Hc Hlen Hcap. unfold trim_step.
   (* the index of the pair to merge is inside the bins *)
@@ -315,6 +333,10 @@ Proof.
     apply pos_app. split; auto. constructor; auto. cbn [snd] in *. ulia. }
   assert (Mass' : mass (l1 ++ (c, (f1 + f2)%Z) :: l2) = mass (bins s)).
   { rewrite Eb, !mass_app. unfold mass. cbn [fold_right snd]. ulia. }
+  assert (Mu' : mu (l1 ++ (c, (f1 + f2)%Z) :: l2) == mu (bins s)).
+  { rewrite Eb, mu_mid, mu_mid2. unfold c. rewrite mu_merge; [ring|lra| |].
+    - apply pos_app in Hp as [_ P2]. inversion P2; subst. auto.
+    - apply pos_app in Hp as [_ P2]. inversion P2 as [|? ? _ P3]; subst. inversion P3; subst. auto. }
   assert (Len' : length (l1 ++ (c, (f1 + f2)%Z) :: l2) = (length (bins s) - 1)%nat).
   { rewrite Eb, !app_length. cbn [length]. ulia. }
   assert (Within' : forall mn mx, within mn mx (bins s) -> within mn mx (l1 ++ (c, (f1 + f2)%Z) :: l2)).
@@ -350,27 +372,31 @@ Lemma trim_ok (fuel : nat) : forall (s : st),
     sorted (bins s') /\ pos_counts (bins s') /\ cache_ok s' /\
     (length (bins s') <= cap s')%nat /\ mass (bins s') = mass (bins s) /\
     same_frame s s' /\ (forall mn mx, within mn mx (bins s) -> within mn mx (bins s')) /\
-    (bins s <> [] -> bins s' <> []).
+    (bins s <> [] -> bins s' <> []) /\ mu (bins s') == mu (bins s).
 Proof.
   induction fuel as [|k IH]; intros s Hs Hp Hc Hcap Hf; cbn [trim].
   - destruct (Nat.leb (length (bins s)) (cap s)) eqn:E.
-    + apply Nat.leb_le in E. exists s. unfold same_frame. repeat split; auto.
+    + apply Nat.leb_le in E. exists s. unfold same_frame. repeat split; auto; reflexivity.
     + apply Nat.leb_gt in E. ulia.
   - destruct (Nat.leb (length (bins s)) (cap s)) eqn:E.
-    + apply Nat.leb_le in E. exists s. unfold same_frame. repeat split; auto.
+    + apply Nat.leb_le in E. exists s. unfold same_frame. repeat split; auto; reflexivity.
     + apply Nat.leb_gt in E.
-      destruct (trim_step_ok s Hs Hp Hc E Hcap) as (s1 & T & S1 & P1 & C1 & L1 & M1 & (F1 & F2 & F3) & W1).
+      destruct (trim_step_ok s Hs Hp Hc E Hcap) as (s1 & T & S1 & P1 & C1 & L1 & M1 & (F1 & F2 & F3) & W1 & Mu1).
       rewrite T. cbn [bind].
-      destruct (IH s1 S1 P1 C1 ltac:(ulia) ltac:(ulia)) as (s' & T' & S' & P' & C' & L' & M' & (G1 & G2 & G3) & W' & N').
-      exists s'. split; [exact T'|]. unfold same_frame. repeat split; auto; try congruence.
-      intros _. apply N'. intros Hn. rewrite Hn in L1. cbn in L1. ulia.
+      destruct (IH s1 S1 P1 C1 ltac:(ulia) ltac:(ulia)) as (s' & T' & S' & P' & C' & L' & M' & (G1 & G2 & G3) & W' & N' & Mu').
+      exists s'. split; [exact T'|]. unfold same_frame.
+      assert (NN : bins s <> [] -> bins s' <> []).
+      { intros _. apply N'. intros Hn. rewrite Hn in L1. cbn in L1. ulia. }
+      assert (MM : mu (bins s') == mu (bins s)) by (rewrite Mu'; exact Mu1).
+      repeat split; auto; try congruence.
 Qed.
 
 (* ---------- update ---------- *)
 Definition upd_spec (s s' : st) (v : Q) (c : Z) : Prop :=
   Inv s' /\ mass (bins s') = (mass (bins s) + c)%Z /\ cap s' = cap s /\
   hmin s' = Some (match hmin s with Some m => pmin AA m v | None => v end) /\
-  hmax s' = Some (match hmax s with Some m => pmax AA m v | None => v end).
+  hmax s' = Some (match hmax s with Some m => pmax AA m v | None => v end) /\
+  mu (bins s') == mu (bins s) + mu [(v, c)].
 
 Lemma sorted_set_same_fst l1 l2 (x y : bin) :
   fst x == fst y -> sorted (l1 ++ x :: l2) -> sorted (l1 ++ y :: l2).
@@ -450,6 +476,8 @@ Proof.
   { unfold s', with_bins; cbn [hmin]. rewrite Hmn. f_equal. unfold pmin. cbn. destruct (Qltb_spec v mn); [lra|reflexivity]. }
   assert (A8 : hmax s' = Some (match hmax s with Some m => pmax AA m v | None => v end)).
   { unfold s', with_bins; cbn [hmax]. rewrite Hmx. f_equal. unfold pmax. cbn. destruct (Qltb_spec mx v); [lra|reflexivity]. }
+  assert (A9 : mu (bins s') == mu (bins s) + mu [(v, c)]).
+  { rewrite B', Eb, !mu_mid. rewrite (mu_hit vi fi v c Ev). ring. }
   unfold upd_spec, Inv. repeat split; auto.
 Qed.
 
@@ -466,7 +494,8 @@ Lemma finish_insert (s2 : st) (l1 l2 : list bin) v c :
   exists s', trim AA (length (bins s3)) s3 = Some s' /\ Inv s' /\
     mass (bins s') = (mass (l1 ++ l2) + c)%Z /\ cap s' = cap s2 /\
     hmin s' = Some (match hmin s2 with Some m => pmin AA m v | None => v end) /\
-    hmax s' = Some (match hmax s2 with Some m => pmax AA m v | None => v end).
+    hmax s' = Some (match hmax s2 with Some m => pmax AA m v | None => v end) /\
+    mu (bins s') == mu (l1 ++ l2) + mu [(v, c)].
 Proof.
   intros Eb Hs Hp Hc Hcap Hlen Hb mn mx s3.
   assert (Hmn : mn = Some (match hmin s2 with Some m => pmin AA m v | None => v end)).
@@ -486,7 +515,7 @@ Proof.
       assert (Mono : forall l, within m1 m2 l -> within (pmin AA m1 v) (pmax AA m2 v) l).
       { intros l Hl. unfold within in *. rewrite Forall_forall in *. intros b Ib. specialize (Hl b Ib). lra. }
       split; [now apply Mono|]. constructor; [cbn; lra|now apply Mono]. }
-  destruct (trim_ok (length (bins s3)) s3) as (s' & T & S' & P' & C' & L' & M' & (F1 & F2 & F3) & W' & N'); auto.
+  destruct (trim_ok (length (bins s3)) s3) as (s' & T & S' & P' & C' & L' & M' & (F1 & F2 & F3) & W' & N' & Mu'); auto.
   - unfold s3; cbn [bins cap]. ulia.
   - exists s'. unfold s3 in *. cbn [bins hmin hmax cap] in *.
     assert (B3 : (2 <= cap s')%nat) by ulia.
@@ -497,6 +526,8 @@ Proof.
     { rewrite M', Eb, !mass_app. unfold mass. cbn [fold_right snd]. ulia. }
     assert (B7 : hmin s' = Some mn') by congruence.
     assert (B8 : hmax s' = Some mx') by congruence.
+    assert (B9 : mu (bins s') == mu (l1 ++ l2) + mu [(v, c)]).
+    { rewrite Mu', Eb, mu_mid, mu_app. ring. }
     unfold Inv. repeat split; auto.
 Qed.
 
@@ -559,9 +590,9 @@ Proof.
                | [] => hmin s2 = None /\ hmax s2 = None
                | _ => exists mn mx, hmin s2 = Some mn /\ hmax s2 = Some mx /\ within mn mx (l1 ++ l2)
                end) by (rewrite <- Eb, M2, X2; exact OB).
-  destruct (finish_insert s2 l1 l2 v c F1 F2 F3 K2 F5 F6 F7) as (s' & T & I' & Ms & Cs & Mn & Mx).
+  destruct (finish_insert s2 l1 l2 v c F1 F2 F3 K2 F5 F6 F7) as (s' & T & I' & Ms & Cs & Mn & Mx & Mu').
   exists s'. split; [exact T|]. unfold upd_spec. rewrite Eb.
-  split; [exact I'|]. split; [exact Ms|]. split; [congruence|]. rewrite <- M2, <- X2. split; assumption.
+  split; [exact I'|]. split; [exact Ms|]. split; [congruence|]. rewrite <- M2, <- X2. split; [assumption|]. split; assumption.
 Qed.
 
 Lemma insert_last_ok (s1 : st) v c vl fl :
@@ -595,18 +626,18 @@ Proof.
                | [] => hmin s2 = None /\ hmax s2 = None
                | _ => exists mn mx, hmin s2 = Some mn /\ hmax s2 = Some mx /\ within mn mx (bins s1 ++ [])
                end) by (rewrite app_nil_r; exact OB).
-  destruct (finish_insert s2 (bins s1) [] v c F1 S2 P2 K2 Hcap F6 F7) as (s' & T & I' & Ms & Cs & Mn & Mx).
-  exists s'. split; [exact T|]. rewrite app_nil_r in Ms. unfold upd_spec.
-  split; [exact I'|]. split; [exact Ms|]. split; [exact Cs|]. split; [exact Mn|exact Mx].
+  destruct (finish_insert s2 (bins s1) [] v c F1 S2 P2 K2 Hcap F6 F7) as (s' & T & I' & Ms & Cs & Mn & Mx & Mu').
+  exists s'. split; [exact T|]. rewrite app_nil_r in Ms, Mu'. unfold upd_spec.
+  split; [exact I'|]. split; [exact Ms|]. split; [exact Cs|]. split; [exact Mn|]. split; [exact Mx|exact Mu'].
 Qed.
 
 Lemma in_place_ok (s1 : st) (l1 l2 : list bin) cv cf v c :
   Inv s1 -> bins s1 = l1 ++ (cv, cf) :: l2 ->
   (forall a, In a l1 -> fst a < cv /\ fst a < v) -> (forall b, In b l2 -> cv < fst b /\ v < fst b) ->
-  (forall mn mx, within mn mx (bins s1) -> mn <= v <= mx) -> (1 <= c)%Z ->
+  (forall mn mx, within mn mx (bins s1) -> mn <= v <= mx) -> (1 <= c)%Z -> ~ cv == v ->
   exists s', in_place AA s1 v c (length l1) = Some s' /\ upd_spec s1 s' v c.
 Proof.
-  intros HI Eb Ha Hb Hv Hc1.
+  intros HI Eb Ha Hb Hv Hc1 Hcvv.
   destruct HI as (Hs & Hp & Hl & Hcap & Hc & Hbo).
   unfold in_place. rewrite Eb, nth_error_mid. cbn [bind].
   set (m := pmin AA (pmax AA (centroid AA cv cf v c) (pmin AA cv v)) (pmax AA cv v)).
@@ -665,6 +696,9 @@ Proof.
   assert (A8 : hmax s' = Some (match hmax s1 with Some m0 => pmax AA m0 v | None => v end)).
   { rewrite X', Hmx. f_equal. unfold pmax. cbn. destruct (Qltb_spec mx v); [lra|reflexivity]. }
   assert (A4 : (2 <= cap s')%nat) by ulia.
+  assert (A9 : mu (bins s') == mu (bins s1) + mu [(v, c)]).
+  { rewrite B', BB, Eb, !mu_mid. unfold m. rewrite (mu_inplace cv cf v c Hcvv); [ring| |exact Hc1].
+    apply pos_app in Hp as [_ P2]. inversion P2; subst. auto. }
   unfold upd_spec, Inv. rewrite B'. repeat split; auto; congruence.
 Qed.
 
@@ -751,20 +785,26 @@ Proof.
     destruct (ltb AA d1 d2).
     + (* candidate: left neighbour *)
       destruct (lt_ext AA d1 (min_diff s1) && Nat.ltb 0 (length l1')) eqn:Ec; cbn [bind].
-      * destruct (in_place_ok s1 l1' ((vq, fq) :: l2') vp fp v c I1 Eb1) as (s' & P1 & P2); auto.
-        -- intros a Ia. split; [now apply Hl1'|]. apply Ha. rewrite E1. apply in_or_app; now left.
-        -- intros b [<-|Ib]; cbn [fst]; [lra|]. specialize (Hl2' b Ib). split; [lra|]. apply Hb. now right.
-        -- exists s'. split; [exact P1|]. now apply (upd_spec_transfer s s1).
+      * assert (G1 : forall a, In a l1' -> fst a < vp /\ fst a < v).
+        { intros a Ia. split; [now apply Hl1'|]. apply Ha. rewrite E1. apply in_or_app; now left. }
+        assert (G2 : forall b, In b ((vq, fq) :: l2') -> vp < fst b /\ v < fst b).
+        { intros b [<-|Ib]; cbn [fst]; [lra|]. specialize (Hl2' b Ib). split; [lra|]. apply Hb. now right. }
+        assert (G3 : ~ vp == v) by lra.
+        destruct (in_place_ok s1 l1' ((vq, fq) :: l2') vp fp v c I1 Eb1 G1 G2 Hin Hc1 G3) as (s' & P1 & P2).
+        exists s'. split; [exact P1|]. now apply (upd_spec_transfer s s1).
       * destruct (insert_mid_ok s1 l1 ((vq, fq) :: l2') v c I1) as (s' & P1 & P2); auto.
         -- now rewrite B1.
         -- rewrite Lq in P1. exists s'. split; [exact P1|]. now apply (upd_spec_transfer s s1).
     + (* candidate: right neighbour *)
       destruct (lt_ext AA d2 (min_diff s1) && Nat.ltb 0 (S (length l1'))) eqn:Ec; cbn [bind].
       * assert (Eb2 : bins s1 = l1 ++ (vq, fq) :: l2') by now rewrite B1.
-        destruct (in_place_ok s1 l1 l2' vq fq v c I1 Eb2) as (s' & P1 & P2); auto.
-        -- intros a Ia. specialize (Ha a Ia). split; [lra|exact Ha].
-        -- intros b Ib. specialize (Hl2' b Ib). split; [exact Hl2'|lra].
-        -- rewrite Lq in P1. exists s'. split; [exact P1|]. now apply (upd_spec_transfer s s1).
+        assert (G1 : forall a, In a l1 -> fst a < vq /\ fst a < v).
+        { intros a Ia. specialize (Ha a Ia). split; [lra|exact Ha]. }
+        assert (G2 : forall b, In b l2' -> vq < fst b /\ v < fst b).
+        { intros b Ib. specialize (Hl2' b Ib). split; [exact Hl2'|lra]. }
+        assert (G3 : ~ vq == v) by lra.
+        destruct (in_place_ok s1 l1 l2' vq fq v c I1 Eb2 G1 G2 Hin Hc1 G3) as (s' & P1 & P2).
+        rewrite Lq in P1. exists s'. split; [exact P1|]. now apply (upd_spec_transfer s s1).
       * destruct (insert_mid_ok s1 l1 ((vq, fq) :: l2') v c I1) as (s' & P1 & P2); auto.
         -- now rewrite B1.
         -- rewrite Lq in P1. exists s'. split; [exact P1|]. now apply (upd_spec_transfer s s1).
@@ -818,6 +858,35 @@ Proof.
            intros x [<-|Ix]; cbn [fst]; [lra|].
            rewrite El in Hs. apply ssorted_app in Hs as (_ & S2 & _).
            pose proof (sorted_head_lt _ _ S2 x Ix) as Hx. cbn [fst] in Hx. lra.
+Qed.
+
+(* ---------- sequences of updates (merge feeds the right operand's bins this way) ---------- *)
+Definition ext_min (o : option Q) (l : list bin) : option Q :=
+  fold_left (fun o b => Some (match o with Some m => pmin AA m (fst b) | None => fst b end)) l o.
+Definition ext_max (o : option Q) (l : list bin) : option Q :=
+  fold_left (fun o b => Some (match o with Some m => pmax AA m (fst b) | None => fst b end)) l o.
+Definition mu_sum (l : list bin) : Q := fold_right (fun b a => mu [b] + a) 0 l.
+
+Lemma feed_ok (l : list bin) : forall (s : st),
+  Inv s -> pos_counts l ->
+  exists s', feed AA s l = Some s' /\ Inv s' /\
+    mass (bins s') = (mass (bins s) + mass l)%Z /\ cap s' = cap s /\
+    hmin s' = ext_min (hmin s) l /\ hmax s' = ext_max (hmax s) l /\
+    mu (bins s') == mu (bins s) + mu_sum l.
+Proof.
+  induction l as [|[v c] t IH]; intros s HI Hp.
+  - exists s. cbn [feed]. split; [reflexivity|]. split; [exact HI|]. split; [unfold mass; cbn [fold_right]; ulia|].
+    split; [reflexivity|]. split; [reflexivity|]. split; [reflexivity|]. cbn [mu_sum fold_right]. ring.
+  - inversion Hp as [|? ? Hc Ht]; subst. cbn [snd] in Hc. cbn [feed].
+    destruct (update_ok s v c HI Hc) as (s1 & U & I1 & M1 & C1 & N1 & X1 & Mu1).
+    rewrite U. cbn [bind].
+    destruct (IH s1 I1 Ht) as (s' & F & I' & M' & C' & N' & X' & Mu').
+    exists s'. split; [exact F|]. split; [exact I'|].
+    split; [rewrite M', M1; unfold mass; cbn [fold_right snd]; ulia|].
+    split; [congruence|].
+    split; [rewrite N', N1; reflexivity|].
+    split; [rewrite X', X1; reflexivity|].
+    rewrite Mu', Mu1. cbn [mu_sum fold_right]. fold (mu_sum t). ring.
 Qed.
 
 End AnyArith.
